@@ -90,7 +90,7 @@ def impl_case(case):
         ms = build(case[1])
         try:
             return tuple(ms.all_variants(case[2]))
-        except (TypeError, KeyError):
+        except KeyError:
             return None
     if k == "apply":
         ms = build(case[1])
@@ -161,7 +161,10 @@ def oracle(case, out):
             return "all_variants is not exactly the product of the multi-variant choices"
         if o[0] != s:
             return "all_variants does not start with the current sequence"
-        if any(v[:span[0]] != s[:span[0]] or v[span[1]:] != s[span[1]:] for v in o):
+        if span is None:
+            if tuple(o) != (s,):
+                return "frozen space: all_variants should yield the sequence itself once"
+        elif any(v[:span[0]] != s[:span[0]] or v[span[1]:] != s[span[1]:] for v in o):
             return "a variant differs outside the multi-variant span"
     elif k == "apply":
         res, ans, log, multi = o
